@@ -1321,7 +1321,7 @@ pub fn run(ctx: &mut Ctx) {
         single(&c);
     }
 
-    let n = ctx.scale(8_000usize, 160_000usize);
+    let n = ctx.scale(30_000usize, 400_000usize);
     let n = std::env::var("VERIF_C09_N").ok().and_then(|v| v.parse().ok()).unwrap_or(n);
     let strat = case_strategy();
     let mut trees = ctx.draw("seq", n, &strat);
